@@ -185,6 +185,24 @@ pub fn gen_world(seed: u64) -> C13World {
         alias_j = true;
         alias_targets.push(("alias_j.libsonnet".into(), target));
     }
+    // a symlinked DIRECTORY as a component of the import string (the same file is then also demanded directly)
+    if has_lnk && main_dir.as_deref() == Some("app") {
+        let cands: Vec<&str> = NAMES.iter().filter(|n| copies[**n].contains(&"j0".to_string())).cloned().collect();
+        if !cands.is_empty() {
+            let n = *r.pick(&cands);
+            alias_targets.push((format!("lnk/{n}"), format!("j0/{n}")));
+        }
+    }
+    if !real_j.is_empty() && r.chance(1, 2) {
+        // ... and one below a library directory: <J>/slnk -> ../app/sub, found through the -J search
+        let cands: Vec<&str> = NAMES.iter().filter(|n| copies[**n].contains(&"app/sub".to_string())).cloned().collect();
+        if !cands.is_empty() {
+            let jd = r.pick(&real_j).clone();
+            tree.push((format!("{jd}/slnk"), Entry::Symlink("../app/sub".into())));
+            let n = *r.pick(&cands);
+            alias_targets.push((format!("slnk/{n}"), format!("app/sub/{n}")));
+        }
+    }
     // planted faults of the real kind
     let mut planted = if r.chance(1, 5) { r.below(6) + 1 } else { 0 };
     let mut extra_modules: Vec<(String, String)> = Vec::new(); // (root-relative path, id) of leaf modules planted below
